@@ -157,4 +157,89 @@ def SumD.val3 (S : SumD α) : α :=
 
 end val
 
+
+/-! ### the code's effective grammar (five left-associative levels) and the precedence-aware printer -/
+
+/-- `x ** [-]x ** ...` -/
+abbrev PowC (α : Type) := α × List (Bool × α)
+/-- `p / [-]p / ...` -/
+abbrev DivC (α : Type) := PowC α × List (Bool × PowC α)
+/-- `d * [-]d * ...` -/
+abbrev MulC (α : Type) := DivC α × List (Bool × DivC α)
+/-- `[-]m - m - ...` -/
+abbrev SubC (α : Type) := (Bool × MulC α) × List (MulC α)
+/-- `s + s + ...` (each `s` may start with a unary minus) -/
+abbrev AddC (α : Type) := SubC α × List (SubC α)
+
+def chainTail (k : Op) (l : List (Bool × α)) : List (Entry α) := l.map (fun e => (k, e.1, e.2))
+
+def PowC.tail (p : PowC α) : List (Entry α) := chainTail Op.pow p.2
+def DivC.tail (d : DivC α) : List (Entry α) :=
+  PowC.tail d.1 ++ d.2.flatMap (fun e => (Op.div, e.1, e.2.1) :: PowC.tail e.2)
+def DivC.base (d : DivC α) : α := d.1.1
+def MulC.tail (m : MulC α) : List (Entry α) :=
+  DivC.tail m.1 ++ m.2.flatMap (fun e => (Op.mul, e.1, DivC.base e.2) :: DivC.tail e.2)
+def MulC.base (m : MulC α) : α := DivC.base m.1
+def SubC.tail (s : SubC α) : List (Entry α) :=
+  MulC.tail s.1.2 ++ s.2.flatMap (fun m => (Op.sub, false, MulC.base m) :: MulC.tail m)
+def AddC.yield (c : AddC α) : Flat α :=
+  ((c.1.1.1, MulC.base c.1.1.2),
+   SubC.tail c.1 ++ c.2.flatMap (fun s => (Op.add, s.1.1, MulC.base s.1.2) :: SubC.tail s))
+
+section tree5
+variable [Alg α]
+def chainTree (k : Op) (a : α) (l : List (Bool × α)) : α :=
+  l.foldl (fun acc e => Alg.bin k acc (negIf e.1 e.2)) a
+def PowC.tree (p : PowC α) : α := chainTree Op.pow p.1 p.2
+def DivC.tree (d : DivC α) : α := chainTree Op.div (PowC.tree d.1) (d.2.map (fun e => (e.1, PowC.tree e.2)))
+def MulC.tree (m : MulC α) : α := chainTree Op.mul (DivC.tree m.1) (m.2.map (fun e => (e.1, DivC.tree e.2)))
+def SubC.tree (s : SubC α) : α :=
+  chainTree Op.sub (negIf s.1.1 (MulC.tree s.1.2)) (s.2.map (fun m => (false, MulC.tree m)))
+/-- the tree of a derivation of the five-level grammar -/
+def AddC.tree (c : AddC α) : α := chainTree Op.add (SubC.tree c.1) (c.2.map (fun s => (false, SubC.tree s)))
+end tree5
+
+/-- terms over atoms (the free algebra) -/
+inductive Tm (β : Type)
+  | atom (b : β)
+  | neg (t : Tm β)
+  | bin (o : Op) (a b : Tm β)
+
+instance {β : Type} : Alg (Tm β) := ⟨Tm.neg, Tm.bin⟩
+
+namespace Tm
+variable {β : Type}
+
+/-- `(flag, t')` with `t = -t'` when a unary minus can be printed in front of the operand -/
+def unneg : Tm β → Bool × Tm β
+  | .neg t => (true, t)
+  | t => (false, t)
+
+/-- the precedence-aware printer: a sub-term is inlined where the grammar level allows it, otherwise it
+    stays an operand of its own (printed between parentheses, or an atom) -/
+def toPow : Tm β → PowC (Tm β)
+  | .bin .pow a b => let p := toPow a; (p.1, p.2 ++ [unneg b])
+  | t => (t, [])
+
+def toDiv : Tm β → DivC (Tm β)
+  | .bin .div a b => let d := toDiv a; (d.1, d.2 ++ [((unneg b).1, toPow (unneg b).2)])
+  | t => (toPow t, [])
+
+def toMul : Tm β → MulC (Tm β)
+  | .bin .mul a b => let m := toMul a; (m.1, m.2 ++ [((unneg b).1, toDiv (unneg b).2)])
+  | t => (toDiv t, [])
+
+def toSub : Tm β → SubC (Tm β)
+  | .bin .sub a b => let s := toSub a; (s.1, s.2 ++ [toMul b])
+  | t => (((unneg t).1, toMul (unneg t).2), [])
+
+def toAdd : Tm β → AddC (Tm β)
+  | .bin .add a b => let c := toAdd a; (c.1, c.2 ++ [toSub b])
+  | t => (toSub t, [])
+
+/-- the printed shape of a term -/
+def print (t : Tm β) : Flat (Tm β) := (toAdd t).yield
+
+end Tm
+
 end TfelVerif.C13
